@@ -1,11 +1,11 @@
 """Shared tie for the properties decided on TaskSM.v (C13, C05, C19): the verbatim task.rs tree
 under the deterministic scheduler, judged by the oracle of harness/atomh/src/tscen.rs."""
-import vlib, taskgen
+import vlib, taskgen, taskreplay
 
 FLAGS_C13 = None  # every flag
 
 
-def run_tasks(rep, name, cases, relevant=None):
+def run_tasks(rep, name, cases, relevant=None, model_ok=True):
     outs = vlib.run_lines(vlib.ATOMH, ["seq"], cases, timeout=900)
     bad, distinct, kinds = [], set(), {}
     for c, o in zip(cases, outs):
@@ -27,6 +27,23 @@ def run_tasks(rep, name, cases, relevant=None):
         c, v, o = min(bad, key=lambda x: len(x[0]))
         rep.violation(name + "-oracle", {"kind": "property-violated-on-implementation", "case": c, "verdict": v,
                                          "trace": o[:3000], "failures": len(bad)})
+    if model_ok:
+        model_replay(rep, name, cases, outs, report=not bad)
+
+
+def model_replay(rep, name, cases, outs, report=True):
+    """translation validation: every real trace is replayed, operation by operation, in the
+    extracted TaskSM (tools/taskreplay.py)"""
+    K = vlib.gen_consts_values()
+    n, nops, hist, bad = taskreplay.replay(cases, outs, K)
+    rep.cov.setdefault("parts", {})[name + "-model-replay"] = {
+        "traces_replayed": n, "model_operations": nops, "operation_histogram": hist, "disagreements": len(bad)}
+    if bad and report:
+        b = min(bad, key=lambda x: len(x["case"]))
+        d = {"kind": "broken-correspondence", "what": "a trace of the real executor/task.rs is not a run of TaskSM.v (theorems ts_run_inv / inv_meaning are about TaskSM.v)",
+             "disagreements": len(bad)}
+        d.update(b)
+        rep.violation(name + "-model-replay", d, no_input=True)
 
 
 def model_exploration(rep, rng, n):
